@@ -320,6 +320,14 @@ def check_list(res, case):
                     indent = " " * ((deco // 4) % 3)
                     lines.append(indent + text + (" " if (deco // 12) % 2 else ""))
                 listfile = os.path.join(listdir, "selected.txt") if listdir else "selected.txt"
+                if case.get("rewritten"):
+                    # history: the list file had other contents before and was read then (a rerun file that is written
+                    # again by every run, a list file maintained by a tool); what counts is what it says NOW
+                    with open(listfile, "w") as f:
+                        f.write("\n".join(l for l in reversed(lines[:-1]) if l.strip() and not l.startswith("#")) + "\n"
+                                + os.path.relpath(os.path.join(proj.root, proj.feature_files[0]), base) + ":1\n")
+                    parse_features(collect_feature_locations(["@" + listfile]))
+                    res.label("listfile:read-rewritten-read-again")
                 with open(listfile, "w") as f:
                     f.write("\n".join(lines) + "\n")
                 try:
@@ -332,6 +340,25 @@ def check_list(res, case):
                 res.label("via-listfile" + (":subdir" if listdir else ":cwd"))
                 if any(l.startswith(" ") for l in lines):
                     res.label("listfile:indented-entry")
+            elif via == "ini":
+                # the locations are the 'paths' of the project's configuration file, nothing is named on the command line
+                from behave.configuration import Configuration
+                locs = [proj.feature_files[fi] if ln is None else "%s:%d" % (proj.feature_files[fi], ln)
+                        for fi, ln in entries]
+                with open("behave.ini", "w") as f:
+                    f.write("[behave]\npaths = " + "\n    ".join(locs) + "\n")
+                old_home = os.environ.get("HOME")
+                os.environ["HOME"] = proj.root
+                try:
+                    config = Configuration([], load_config=True)
+                finally:
+                    if old_home is None:
+                        os.environ.pop("HOME", None)
+                    else:
+                        os.environ["HOME"] = old_home
+                locations = collect_feature_locations(list(config.paths))
+                features = parse_features(locations)
+                res.label("via-configuration-file-paths")
             else:
                 args = []
                 k = 0
@@ -509,9 +536,11 @@ def list_case(draw):
         lines = draw(st.lists(st.one_of(st.none(), st.integers(0, 60), st.integers(0, 60)), min_size=1, max_size=3))
         entries.append([fi, lines])
     case = {"kind": "list", "program": prog, "entries": entries,
-            "via": draw(st.sampled_from(["list", "list", "args"])),
+            "via": draw(st.sampled_from(["list", "list", "list", "args", "args", "ini"])),
             "listdir": draw(st.sampled_from(["", "", "lists", "features"])),
             "deco": draw(st.lists(st.integers(0, 23), min_size=1, max_size=4))}
+    if case["via"] == "list" and draw(st.integers(0, 2)) == 0:
+        case["rewritten"] = True
     if case["via"] == "args" and draw(st.integers(0, 2)) == 0:
         # the directory is named as well (before, between or after the file locations)
         entries.insert(draw(st.integers(0, len(entries))), ["dir", []])
@@ -555,7 +584,7 @@ def required_labels(tier):
             "noise", "all-pairs(doc<=12)", "run-sample", "via-listfile:subdir", "via-listfile:cwd", "via-args",
             "listfile:indented-entry", "files:2", "locparse", "name", "name:row-selected", "scenario-names-not-unique",
             "via-args:glob-characters-in-file-name", "run-sample:auto-retry", "list:file-named-again-later", "via-args:directory-next-to-locations",
-            "examples-section-without-table", "name:hook-decorates-the-name"]
+            "examples-section-without-table", "name:hook-decorates-the-name", "listfile:read-rewritten-read-again", "via-configuration-file-paths"]
 
 
 def _f12(case, detail, info):
